@@ -30,6 +30,7 @@ PAL_MORE = [
     ({'k': 'fmt', 'v': 'UL_RED'}, ['4', '58;5;9']),
     ({'k': 'str', 'v': 'bold;red'}, ['1', '31']),
     ({'k': 'aset', 'v': '31'}, ['31']),
+    ({'k': 'int', 'v': 0}, ['0']),
     ({'k': 'str', 'v': 'rgb(10,20,30)'}, ['38;2;10;20;30']),
     ({'k': 'str', 'v': 'bg_color256(7)'}, ['48;5;7']),
     ({'k': 'str', 'v': 'rgb(0xFF0000)'}, ['38;2;255;0;0']),
@@ -64,6 +65,7 @@ PAL_ODD = [
     ({'k': 'aset', 'v': 'not ok'}, ['not ok']),
     ({'k': 'verb', 'v': '38;5'}, ['38;5']),
     ({'k': 'verb', 'v': '0'}, ['0']),
+    ({'k': 'int', 'v': 0}, ['0']),
     ({'k': 'verb', 'v': '38;5;256'}, ['38;5;256']),
     ({'k': 'verb', 'v': '4:3'}, ['4:3']),
     ({'k': 'verb', 'v': '1; 31'}, ['1; 31']),
@@ -215,6 +217,8 @@ class Gen:
              'end': self.bound(r), 'top': self.rng.random() < 0.55}
         if self.rng.random() < 0.1:
             o['sets'], o['S'] = [], []
+        elif len(forms) == 1 and self.rng.random() < 0.3:
+            o['single'] = True          # the bare form (a member, a name, an int - including 0) instead of a list
         self.do(o)
 
     def g_apply_match(self):
@@ -243,7 +247,7 @@ class Gen:
         else:
             # prefer settings that are actually present
             present = sorted({tuple(self.m.texts.rows[t - 1]) for row in self.m.snaps[r]['s'] for (_, t) in row})
-            cands = [(f, d) for (f, d) in PAL_CORE + PAL_MORE if len(d) == 1 and tuple(map(ord, d[0])) in present]
+            cands = [(f, d) for (f, d) in PAL_CORE + PAL_MORE + PAL_ODD[5:8] if len(d) == 1 and tuple(map(ord, d[0])) in present]
             if len(cands) >= 2 and self.rng.random() < 0.25:
                 (f1, d1), (f2, d2) = self.rng.sample(cands, 2)
                 o['sets'], o['S'] = [f1, f2], list(d1) + list(d2)
@@ -254,6 +258,8 @@ class Gen:
                 o['sets'], o['S'] = [f], list(d)
             else:
                 o['sets'], o['S'] = self.settings()
+            if len(o['sets']) == 1 and self.rng.random() < 0.3:
+                o['single'] = True
         self.do(o)
 
     def g_remove_edge(self):
@@ -864,6 +870,51 @@ class Gen:
         if self.length(a):
             self.do({'op': 'ansi_settings_at', 'r': a, 'i': self.rng.randrange(self.length(a))})
 
+    def g_esc_in_base(self):
+        """A value whose BASE TEXT contains a complete SGR-looking sequence (ESC [ ... m), assembled from pieces none of
+        which contains one (concatenation, assign_str, padding with ESC as fill): whatever is done to it afterwards, the
+        text must be treated as text, never parsed again."""
+        if not self.room(8):
+            return
+        body = self.rng.choice(['1', '31', '0', '', '1;31', '38;5;9'])
+        tail = self.rng.choice(['X', 'ab', 'a b-'])
+        how = self.rng.choice(['add', 'add', 'assign', 'rjust', 'join'])
+        cls = self.rng.choice('SSA')
+        forms, S = self.settings() if self.rng.random() < 0.5 else ([], [])
+        if how == 'assign':
+            r = self.do({'op': 'new', 'cls': 'S', 'text': 'q' * self.rng.randint(1, 3), 'sets': forms, 'S': S})['res'][0]
+            self.do({'op': 'assign_str', 'r': r, 'text': self.rng.choice(['', 'a']) + '\x1b[' + body + 'm' + tail})
+        elif how == 'rjust':
+            t = '[' + body + 'm' + tail
+            r = self.do({'op': 'new', 'cls': cls, 'text': t, 'sets': forms, 'S': S})['res'][0]
+            e = self.do({'op': 'pad', 'r': r, 'm': 'rjust', 'width': len(t) + 1, 'fill': '\x1b', 'extend': self.rng.random() < 0.5, 'inplace': False})
+            if e['out'] != 'ok' or not e['res']:
+                return
+            r = e['res'][0]
+        else:
+            a = self.do({'op': 'new', 'cls': cls, 'text': self.rng.choice(['', 'a', 'ab']) + '\x1b', 'sets': forms, 'S': S})['res'][0]
+            if self.rng.random() < 0.5:
+                forms2, S2 = self.settings()
+                b_ = self.do({'op': 'new', 'cls': self.rng.choice('SA'), 'text': '[' + body + 'm' + tail, 'sets': forms2, 'S': S2})['res'][0]
+            else:
+                b_ = self.do({'op': 'lit', 'text': '[' + body + 'm' + tail})['res'][0]
+            if how == 'join':
+                e = self.do({'op': 'join', 'cls': 'S', 'items': [a, b_]})
+            else:
+                e = self.do({'op': 'add', 'r': a, 'other': b_})
+            if e['out'] != 'ok' or not e['res']:
+                return
+            r = e['res'][0]
+        # and now anything at all
+        for _ in range(self.rng.randint(1, 3)):
+            nm = self.rng.choice(['slice', 'clip', 'index', 'iter', 'strip', 'rmfix', 'split', 'splitlines', 'partition', 'replace', 'clear', 'copy',
+                                  'case', 'pad', 'apply', 'remove', 'query', 'render', 'add', 'cut_tail_of'])
+            if nm == 'cut_tail_of':
+                n = self.length(r)
+                self.do({'op': 'slice', 'r': r, 'start': self.rng.choice([None, 0, 1, 2]), 'stop': self.rng.choice([None, n, n - 1])})
+            elif hasattr(self, 'g_' + nm):
+                self._with_subject(r, nm, self.rng.random() < 0.4 and self.m.kinds[r] == 'S')
+
     def g_many_end(self):
         """Three to six settings of different groups end at one index inside the text while another continues."""
         r = self.pick('S')
@@ -1042,7 +1093,7 @@ class Gen:
         old = self.substr(r, 1, 2) if self.rng.random() < 0.95 else ''
         x = self.rng.random()
         if x < 0.45:
-            e = self.do({'op': 'lit', 'text': self.rng.choice(['', '+', 'xy', old + old, 'a'])})
+            e = self.do({'op': 'lit', 'text': self.rng.choice(['', '+', 'xy', old + old, 'a', '\x1b[31m+\x1b[m', '\x1b[1m' + old + '\x1b[0m', 'x\x1b[4my'])})
             new = e['res'][0]
         elif x < 0.8:
             forms, S = self.settings()
@@ -1305,7 +1356,7 @@ class Gen:
 
 
 W_BASE = {'new': 1.0, 'new_from': 0.5, 'apply': 3, 'remove': 2, 'clear': 0.2, 'slice': 2, 'index': 0.7, 'clip': 0.7,
-          'iter': 0.2, 'crossed_stops': 0.5, 'cut_tail': 0.4, 'astr_of_source': 0.3, 'qmq': 0.6, 'parse_twice': 0.2, 'add': 1.5, 'iadd': 1.5, 'join': 0.7, 'split_rejoin': 0.7, 'copy': 0.8, 'render': 0.5, 'iter_join': 0.3}
+          'iter': 0.2, 'crossed_stops': 0.5, 'esc_in_base': 0.4, 'cut_tail': 0.4, 'astr_of_source': 0.3, 'qmq': 0.6, 'parse_twice': 0.2, 'add': 1.5, 'iadd': 1.5, 'join': 0.7, 'split_rejoin': 0.7, 'copy': 0.8, 'render': 0.5, 'iter_join': 0.3}
 
 
 def weights(**over):
@@ -1320,9 +1371,9 @@ PROFILES = {
                    simplify=0.4, copy=0.3, many_end=0.6, clear_over=0.6),
     'C03': weights(render=0, reparse=1.2, simplify=1.2, apply=4, remove=2, parse_twice=0.8, many_end=1.0, clear_over=0.8),
     'C10': dict(new=1.5, case=2, pad=2, strip=2, rmfix=2, replace=2, expandtabs=1, split=2.5, splitlines=1.5, partition=2, query=8,
-                assign_str=0.5, apply=0.5, qmq=1.2),
+                assign_str=0.5, apply=0.5, qmq=1.2, esc_in_base=1.0),
     'C11': dict(nonuniform=2.5, strip_enclosed=1.5, new=0.5, case=1.5, strip=2, rmfix=2, replace=3.5, expandtabs=1, split=3.5, splitlines=1.5,
-                partition=2.5, assign_str=1.5, apply=1.5, remove=0.5, add=0.5, qmq=1.2, crossed_stops=0.5, cut_tail=0.8),
+                partition=2.5, assign_str=1.5, apply=1.5, remove=0.5, add=0.5, qmq=1.2, crossed_stops=0.5, cut_tail=0.8, esc_in_base=1.0),
     'C12': dict(nonuniform=2, new=1, pad=5, pad_nested=1.5, pad_pair=1.5, pad_huge=0.2, fmt=5, apply=2, remove=0.5, slice=0.5, add=0.5, qmq=1.0, crossed_stops=0.4),
     'C16': weights(matching=6, apply_match=1.0, apply=3, remove=1, slice=0.5, render=0.2, case=1.5, copy=0.3, match_case_match=1.5, matching_adjacent=1.5),
     'C17': weights(find_settings=5, settings_at=2.5, apply=4, remove=2, slice=0.5, add=0.7, iadd=0.7, pad=1.2, assign_str=0.6, grow_then_slice=1.5, find_overlap=1.5, shrink_then_find=1.5,
